@@ -36,8 +36,13 @@ class Model:
                     self.own[(c, kind)] = snapshot_table(kind, c.__dict__[attr])
 
     def new_class(self, cls):
-        """A freshly defined subclass owns nothing (YAMLObject registration is applied separately)."""
-        self.adopt(cls)
+        """A freshly defined subclass owns nothing (YAMLObject registration is applied separately): whatever tables the real class
+        may carry at this point are NOT taken over - defining a class is not a registration, so the rule says it keeps following
+        its bases.  (Only bases the model has not met yet are adopted.)"""
+        for b in cls.__mro__[1:]:
+            for kind, attr in KINDS.items():
+                if (b, kind) not in self.own and attr in b.__dict__:
+                    self.own[(b, kind)] = snapshot_table(kind, b.__dict__[attr])
 
     def owner(self, cls, kind):
         for c in cls.__mro__:
